@@ -1,6 +1,8 @@
 package harness
 
 import (
+	"verifsim/wire"
+	"strconv"
 	"bytes"
 	"fmt"
 	"os"
@@ -204,6 +206,8 @@ func c09TextProbe(env *Env) {
 		`<fix type="FIXT" major="1" minor="1"><messages/><fields/></fix>`,
 		`<fix type="FIX" major="4" minor="2"><header><field name="Nope" required="Y"/></header><trailer/><messages/><fields/></fix>`,
 		`<fix type="FIX" major="x" minor="2"/>`,
+		`<fix type="FIX" major="4" minor="2"><header><field name="BeginString" required="Y"/><field name="BodyLength" required="Y"/><field name="MsgType" required="Y"/><field name="SenderCompID" required="Y"/><field name="TargetCompID" required="Y"/><field name="MsgSeqNum" required="Y"/><field name="SendingTime" required="Y"/></header><trailer><field name="CheckSum" required="Y"/></trailer><messages><message name="M" msgtype="M" msgcat="app"><field name="When" required="N"/><field name="Ref" required="N"/><field name="Odd" required="N"/></message></messages><fields><field number="8" name="BeginString" type="STRING"/><field number="9" name="BodyLength" type="LENGTH"/><field number="35" name="MsgType" type="STRING"/><field number="49" name="SenderCompID" type="STRING"/><field number="56" name="TargetCompID" type="STRING"/><field number="34" name="MsgSeqNum" type="SEQNUM"/><field number="52" name="SendingTime" type="UTCTIMESTAMP"/><field number="10" name="CheckSum" type="STRING"/><field number="1000" name="When" type="LOCALMKTTIME"/><field number="1001" name="Ref" type="XIDREF"/><field number="1002" name="Odd" type="String"/></fields></fix>`,
+		`<fix type="FIX" major="4" minor="2"><messages><message name="M" msgtype="M" msgcat="app"><field name="F" required="N"/></message></messages><fields><field number="1000" name="F" type="INT"/></fields></fix>`,
 		`<fix type="FIX" major="4" minor="2"><messages><message name="M" msgtype="M" msgcat="app"><group name="G" required="Y"></group></message></messages><fields><field number="5" name="G" type="NUMINGROUP"/></fields></fix>`,
 	}
 	{
@@ -216,6 +220,8 @@ func c09TextProbe(env *Env) {
 				// a dictionary that loads is usable for parsing
 				m := quickfix.NewMessage()
 				_ = quickfix.ParseMessageWithDataDictionary(m, bytes.NewBufferString("8=FIX.4.2\x019=12\x0135=M\x011000=1\x0110=000\x01"), dd, dd)
+				// ... and for validating (a session configured with it validates every inbound message)
+				c09ValidateWith(dd, "M")
 			}
 		})
 		env.Stat("probe_api_odd_dictionary")
@@ -229,6 +235,8 @@ func c09TextProbe(env *Env) {
 		guard("datadictionary.ParseSrc", x[:min(len(x), 400)], func() {
 			if dd, err := datadictionary.ParseSrc(bytes.NewReader(x)); err == nil && dd != nil {
 				_ = dd.FieldTypeByTag
+				c09ValidateWith(dd, "0")
+				c09ValidateWith(dd, "A")
 			}
 		})
 		env.Stat("probe_api_dictionary_text")
@@ -360,4 +368,21 @@ func (nopApp) FromAdmin(*quickfix.Message, quickfix.SessionID) quickfix.MessageR
 }
 func (nopApp) FromApp(*quickfix.Message, quickfix.SessionID) quickfix.MessageRejectError {
 	return nil
+}
+
+// c09ValidateWith validates a few well-formed messages of the given type against a dictionary that
+// loaded, the way a session configured with it would.
+func c09ValidateWith(dd *datadictionary.DataDictionary, msgType string) {
+	for _, body := range []string{"", "1000=1\x01", "1000=10:30:00\x011001=x\x011002=y\x01", "58=text\x01112=id\x01"} {
+		b := "35=" + msgType + "\x0149=A\x0156=B\x0134=1\x0152=20000101-00:00:00\x01" + body
+		raw := wire.Seal([]byte("8=FIX.4.2\x019=" + strconv.Itoa(len(b)) + "\x01" + b))
+		for _, parseWith := range []*datadictionary.DataDictionary{nil, dd} {
+			m := quickfix.NewMessage()
+			if quickfix.ParseMessageWithDataDictionary(m, bytes.NewBuffer(raw), parseWith, parseWith) != nil {
+				continue
+			}
+			quickfix.NewValidator(quickfix.ValidatorSettings{CheckFieldsOutOfOrder: true, RejectInvalidMessage: true, CheckFieldsHaveValues: true, CheckUserDefinedFields: true}, dd, nil).Validate(m)
+			quickfix.NewValidator(quickfix.ValidatorSettings{CheckFieldsOutOfOrder: true, RejectInvalidMessage: true, CheckFieldsHaveValues: true, CheckUserDefinedFields: true}, dd, dd).Validate(m)
+		}
+	}
 }
